@@ -172,3 +172,55 @@ func VerifC09FirstDeliveries(pre int) {
 	}
 	vrf.Cover("first-deliveries-done")
 }
+
+// VerifC09EvictVsRemove: with a store size limit, a client removes the store's oldest message
+// while a delivery to another mailbox pushes the store over the limit, so that the enforcer picks
+// that same message for eviction. Under every explored schedule both calls return, and the
+// accounting stays exact: afterwards a message that fits is delivered without evicting anything.
+func VerifC09EvictVsRemove(pre int) {
+	iters := 1
+	if !vrf.Symbolic() {
+		iters = 300
+	}
+	for it := 0; it < iters; it++ {
+		st, err := New(config.Storage{Params: map[string]string{"maxkb": "1"}}, extension.NewHost())
+		if err != nil {
+			return
+		}
+		id1, perr := st.AddMessage(&vrfIn{mailbox: "a", subject: "old", src: vrf.ZeroBytes(600)})
+		vrf.Assert("prelude-noerr", perr == nil)
+		vrf.Preemptions(pre)
+		done := make(chan bool, 2)
+		go func() {
+			st.RemoveMessage("a", id1) // may find it already evicted
+			done <- true
+		}()
+		idb := ""
+		go func() {
+			id, aerr := st.AddMessage(&vrfIn{mailbox: "b", subject: "big", src: vrf.ZeroBytes(600)})
+			idb = id
+			done <- aerr == nil
+		}()
+		for got := 0; got < 2; got++ {
+			select {
+			case ok := <-done:
+				vrf.Assert("concurrent-operations-succeed", ok)
+			case <-time.After(3 * time.Second):
+				vrf.Assert("concurrent-operations-return", false)
+				return
+			}
+		}
+		// a message that fits beside b's (600 + 400 <= 1024): nothing has to go
+		idc, cerr := st.AddMessage(&vrfIn{mailbox: "c", subject: "fits", src: vrf.ZeroBytes(400)})
+		vrf.Assert("later-delivery-noerr", cerr == nil)
+		// one more round trip through the enforcer so that its evictions (if any) have happened
+		st.AddMessage(&vrfIn{mailbox: "d", subject: "tiny", src: vrf.ZeroBytes(1)})
+		mb, berr := st.GetMessage("b", idb)
+		mc, gerr := st.GetMessage("c", idc)
+		vrf.Assert("fitting-message-kept", gerr == nil && mc != nil)
+		vrf.Assert("nothing-evicted-needlessly", berr == nil && mb != nil)
+		ma, _ := st.GetMessages("a")
+		vrf.Assert("removed-message-gone", len(ma) == 0)
+	}
+	vrf.Cover("evict-vs-remove-done")
+}
